@@ -164,9 +164,10 @@ Fixpoint tt_serialize (m d : N) (t : ttnode) : bytes :=
   end.
 
 (* one node and its announced number of children; each child is put into its parent with the
-   sorted insert.  (Go ignores the error of the name-length read and fails at the next read; a
-   length or count larger than the rest of the input can never be satisfied and is rejected at
-   once here — hostile bodies belong to C16.) *)
+   sorted insert.  Every failed read is an error (name length and name are read through
+   varint.Read / serialization.ReadBytes, which fail on truncation).  A child count larger than the
+   rest of the input can never be satisfied (every node takes at least three bytes) and is rejected
+   at once here, where the Go loop would fail at the first missing node. *)
 Fixpoint tt_parse (fuel : nat) (bs : bytes) : option (ttnode * bytes) :=
   match fuel with
   | O => None
